@@ -22,7 +22,7 @@ OWNER = {"C01": "C01", "C02": "C02", "C03": "C03", "C04": "C04", "C14": "C14", "
 
 PROPS = {
     "C01": dict(modes={"quick": [("path", "quick"), ("regexpos", "quick"), ("media2", "quick")],
-                       "thorough": [("path", "thorough"), ("headers", "quick"), ("regexpos", "quick"), ("media2", "quick")]},
+                       "thorough": [("path", "thorough"), ("headers", "quick"), ("regexpos", "thorough"), ("media2", "quick")]},
                 plan=dict(perms=0, slash=False, entries=["D", "S"], conc=8),
                 random={"quick": [("mixed", 220, 20), ("headers", 80, 24), ("headers", 40, 24, {"defReqCT": "application/json"})],
                         "thorough": [("mixed", 4000, 30), ("headers", 1500, 40), ("headers", 500, 40, {"defReqCT": "application/json"})]},
@@ -35,7 +35,7 @@ PROPS = {
                      "containers under both routers, and all requests of a table once more from 8 goroutines at once. Non-trivial = distinct (table, request, outcome) in which a "
                      "route function ran (the property's antecedent)."),
     "C02": dict(modes={"quick": [("headers", "quick"), ("roots", "quick"), ("regexpos", "quick"), ("media2", "quick")],
-                       "thorough": [("headers", "thorough"), ("roots", "thorough"), ("path", "quick"), ("regexpos", "quick"), ("media2", "quick")]},
+                       "thorough": [("headers", "thorough"), ("roots", "thorough"), ("path", "quick"), ("regexpos", "thorough"), ("media2", "quick")]},
                 plan=dict(perms=0, slash=False, entries=["D", "S"]),
                 random={"quick": [("headers", 150, 24), ("mixed", 150, 20)],
                         "thorough": [("headers", 3000, 40), ("mixed", 3000, 30)]},
@@ -47,8 +47,8 @@ PROPS = {
                      "405/415/406 was chosen)."),
     "C03": dict(modes={"quick": [("path", "quick"), ("roots", "quick"), ("order3", "quick"), ("roots4", "quick"), ("media", "quick")],
                        "thorough": [("path", "thorough"), ("roots", "thorough"), ("order3", "quick"), ("roots4", "quick"), ("media", "quick")]},
-                plan=dict(perms=3, slash=False, entries=["D"]),
-                random={"quick": [("mixed", 200, 16)], "thorough": [("mixed", 4000, 30)]},
+                plan=dict(perms=3, slash=False, entries=["D"], late=True),
+                random={"quick": [("mixed", 200, 16), ("common", 100, 16)], "thorough": [("mixed", 4000, 30), ("common", 1500, 24)]},
                 # the root pools once more through ServeHTTP (the ServeMux registrations depend on the Add order)
                 twins=[dict(name="servehttp", over={"entries": ["S"]}, modes={"roots", "roots4"})],
                 counter="dominance",
@@ -56,7 +56,7 @@ PROPS = {
                      "separate real containers; outcomes are compared across orders and judged against dominance. "
                      "Non-trivial = observations in which >= 2 fully eligible routes (or >= 2 claiming services) "
                      "competed, counted by the trace spec."),
-    "C04": dict(modes={"quick": [("path", "quick"), ("regexpos", "quick")], "thorough": [("path", "thorough"), ("regexpos", "quick")]},
+    "C04": dict(modes={"quick": [("path", "quick"), ("regexpos", "quick")], "thorough": [("path", "thorough"), ("regexpos", "thorough")]},
                 plan=dict(perms=0, slash=True, entries=["D"], conc=8),
                 random={"quick": [("mixed", 220, 20)], "thorough": [("mixed", 5000, 30)]},
                 counter="params",
